@@ -338,11 +338,26 @@ func rulesC18(c *Ctx) {
 			if !ok || len(sl.CallsIn(rs.Body, sub, false)) != 1 {
 				return
 			}
-			for _, st := range rs.Body.List {
-				if d, ok := st.(*ast.DeferStmt); ok && sl.IsCallTo(d.Call, unsub) {
-					okUnsub = sl.Mentions(d.Call, sl.ObjOf(rs.Value))
+			// wherever the defer statement sits in the iteration's body: it names the same URI and every
+			// path from the subscribe call to the next iteration or to a successful return passes it
+			subV := g.VertexOf(sl.CallsIn(rs.Body, sub, false)[0])
+			var targets []int
+			if rs.Value != nil {
+				targets = append(targets, g.VertexOf(rs.Value))
+			}
+			for _, x := range g.Exits {
+				if r, isR := g.Node(x).(*ast.ReturnStmt); isR && len(r.Results) == 2 && isNilIdent(r.Results[1]) {
+					targets = append(targets, x)
 				}
 			}
+			inspectNoLit(rs.Body, func(m ast.Node) {
+				if d, ok := m.(*ast.DeferStmt); ok && sl.IsCallTo(d.Call, unsub) && sl.Mentions(d.Call, sl.ObjOf(rs.Value)) {
+					dv := g.VertexOf(d)
+					if pass, _ := g.MustPass(subV, targets, func(v int) bool { return v == dv }); pass && len(targets) >= 2 {
+						okUnsub = true
+					}
+				}
+			})
 		})
 		c.Check(okUnsub, "subscriptionsListen:deferred-unsubscribe", sl, nil, "each per-URI subscription made by a listen is undone by a deferred unsubscribe for the same URI")
 		okDel := false
